@@ -106,6 +106,8 @@ inductive Err where
   | notImpl     -- NotImplementedError (unsupported node: an *internal* error)
   | assertion   -- AssertionError
   | attribute   -- AttributeError (unknown method name)
+  | sqlError    -- the database rejects the generated SQL
+  | unspecified -- outside the model (ambiguous self-join names): the comparison stops here
   | fuel        -- model artefact: recursion budget exhausted (never expected)
 deriving DecidableEq, Repr, Inhabited
 
@@ -119,6 +121,8 @@ def Err.name : Err → String
   | .notImpl => "NotImplementedError"
   | .assertion => "AssertionError"
   | .attribute => "AttributeError"
+  | .sqlError => "SQLError"
+  | .unspecified => "Unspecified"
   | .fuel => "ModelFuel"
 
 end DafRel
